@@ -249,4 +249,273 @@ theorem box_diam (b : Cell K) (p c : K × K)
   have k2 : b.hh * b.hh ≤ stdMax b.hh b.hw * stdMax b.hh b.hw := mul_le_mul m2 m2 hh0 (le_trans hh0 m2)
   nlinarith
 
+theorem sqNorm_nonneg (v : K × K) : 0 ≤ sqNorm v := by
+  unfold sqNorm
+  have a1 := mul_self_nonneg v.1
+  have a2 := mul_self_nonneg v.2
+  linarith
+
+/-- the one-point facts for a point `p` of a summarised cell with centre of mass `c`, query `x` -/
+theorem pointFacts_of_cell (θ : K) (b : Cell K) (x c p : K × K) (hρ : 8 * (θ * θ) ≤ 1 / 8)
+    (hs : useSummary θ b (sqNorm (x.1 - c.1, x.2 - c.2)) = true)
+    (hp : b.x - b.hw ≤ p.1 ∧ p.1 ≤ b.x + b.hw ∧ b.y - b.hh ≤ p.2 ∧ p.2 ≤ b.y + b.hh)
+    (hc : b.x - b.hw ≤ c.1 ∧ c.1 ≤ b.x + b.hw ∧ b.y - b.hh ≤ c.2 ∧ c.2 ≤ b.y + b.hh) :
+    PointFacts (8 * (θ * θ)) (sqNorm (x.1 - c.1, x.2 - c.2))
+      ((p.1 - c.1) * (p.1 - c.1) + (p.2 - c.2) * (p.2 - c.2))
+      ((x.1 - c.1) * (p.1 - c.1) + (x.2 - c.2) * (p.2 - c.2))
+      (sqNorm (x.1 - p.1, x.2 - p.2))
+      (1 / (1 + sqNorm (x.1 - p.1, x.2 - p.2)))
+      (1 / (1 + sqNorm (x.1 - c.1, x.2 - c.2))) := by
+  obtain ⟨-, -, hcrit⟩ := useSummary_true θ _ b hs
+  have hd := box_diam b p c hp hc
+  have hD := sqNorm_nonneg (x.1 - c.1, x.2 - c.2)
+  have hS := sqNorm_nonneg (x.1 - p.1, x.2 - p.2)
+  refine ⟨mul_nonneg (by norm_num) (mul_self_nonneg θ), hρ, hD, ?_, ?_, ?_, ?_, ?_, ?_⟩
+  · have a1 := mul_self_nonneg (p.1 - c.1)
+    have a2 := mul_self_nonneg (p.2 - c.2)
+    linarith
+  · linarith
+  · unfold sqNorm
+    nlinarith [sq_nonneg ((x.1 - c.1) * (p.2 - c.2) - (x.2 - c.2) * (p.1 - c.1))]
+  · unfold sqNorm; ring
+  · rw [one_div, inv_mul_cancel₀]; linarith
+  · rw [one_div, inv_mul_cancel₀]; linarith
+
+/-- **one summarised cell**: the summary against the exact terms of the cell's points -/
+theorem summary_error (θ : K) (hρ : 8 * (θ * θ) ≤ 1 / 8) (b : Cell K) (ps : List (K × K)) (hne : ps ≠ [])
+    (c : K × K) (hm : MassOK ps.length c ps) (hall : ∀ p ∈ ps, b.containsPoint p = true) (x : K × K)
+    (hs : useSummary θ b (sqNorm (x.1 - c.1, x.2 - c.2)) = true) :
+    0 ≤ (addSummary ps.length (x.1 - c.1, x.2 - c.2) (sqNorm (x.1 - c.1, x.2 - c.2)) ((0, 0), 0)).2 ∧
+    |(addSummary ps.length (x.1 - c.1, x.2 - c.2) (sqNorm (x.1 - c.1, x.2 - c.2)) ((0, 0), 0)).2 -
+        ((ps.map (term x)).sum).2| ≤ 37 * (8 * (θ * θ)) *
+      (addSummary ps.length (x.1 - c.1, x.2 - c.2) (sqNorm (x.1 - c.1, x.2 - c.2)) ((0, 0), 0)).2 ∧
+    |(addSummary ps.length (x.1 - c.1, x.2 - c.2) (sqNorm (x.1 - c.1, x.2 - c.2)) ((0, 0), 0)).1.1 -
+        ((ps.map (term x)).sum).1.1| ≤ 262 * (8 * (θ * θ)) *
+      (addSummary ps.length (x.1 - c.1, x.2 - c.2) (sqNorm (x.1 - c.1, x.2 - c.2)) ((0, 0), 0)).2 ∧
+    |(addSummary ps.length (x.1 - c.1, x.2 - c.2) (sqNorm (x.1 - c.1, x.2 - c.2)) ((0, 0), 0)).1.2 -
+        ((ps.map (term x)).sum).1.2| ≤ 262 * (8 * (θ * θ)) *
+      (addSummary ps.length (x.1 - c.1, x.2 - c.2) (sqNorm (x.1 - c.1, x.2 - c.2)) ((0, 0), 0)).2 := by
+  have hcb := com_in_box b ps hne c hm hall
+  have hpb : ∀ p ∈ ps, b.x - b.hw ≤ p.1 ∧ p.1 ≤ b.x + b.hw ∧ b.y - b.hh ≤ p.2 ∧ p.2 ≤ b.y + b.hh :=
+    fun p hp => (contains_iff b p).1 (hall p hp)
+  have hF : ∀ p ∈ ps, PointFacts (8 * (θ * θ)) (sqNorm (x.1 - c.1, x.2 - c.2))
+      ((p.1 - c.1) * (p.1 - c.1) + (p.2 - c.2) * (p.2 - c.2))
+      ((x.1 - c.1) * (p.1 - c.1) + (x.2 - c.2) * (p.2 - c.2))
+      (sqNorm (x.1 - p.1, x.2 - p.2))
+      (1 / (1 + sqNorm (x.1 - p.1, x.2 - p.2)))
+      (1 / (1 + sqNorm (x.1 - c.1, x.2 - c.2))) :=
+    fun p hp => pointFacts_of_cell θ b x c p hρ hs (hpb p hp) hcb
+  obtain ⟨m1, m2⟩ := hm
+  -- the offsets from the centre of mass sum to zero
+  have z1 : (ps.map fun p : K × K => p.1 - c.1).sum = 0 := by
+    rw [sum_sub_const (fun p : K × K => p.1) c.1 ps]
+    have : (ps.map fun p : K × K => p.1).sum = (ps.map Prod.fst).sum := rfl
+    rw [this, ← m1]; ring
+  have z2 : (ps.map fun p : K × K => p.2 - c.2).sum = 0 := by
+    rw [sum_sub_const (fun p : K × K => p.2) c.2 ps]
+    have : (ps.map fun p : K × K => p.2).sum = (ps.map Prod.snd).sum := rfl
+    rw [this, ← m2]; ring
+  obtain ⟨p0, hp0⟩ := List.exists_mem_of_ne_nil ps hne
+  have hqcpos := (hF p0 hp0).qc_pos
+  have hρ0 : 0 ≤ 8 * (θ * θ) := mul_nonneg (by norm_num) (mul_self_nonneg θ)
+  set D := sqNorm (x.1 - c.1, x.2 - c.2) with hD
+  set qc : K := 1 / (1 + D) with hqc
+  set n : K := (ps.length : K) with hn
+  have hn0 : 0 ≤ n := by rw [hn]; exact Nat.cast_nonneg _
+  -- the three components of the summary
+  have hS2 : (addSummary ps.length (x.1 - c.1, x.2 - c.2) D ((0, 0), 0)).2 = n * qc := by
+    simp [addSummary, hqc, hn]
+  have hS11 : (addSummary ps.length (x.1 - c.1, x.2 - c.2) D ((0, 0), 0)).1.1 = n * (qc * qc * (x.1 - c.1)) := by
+    simp [addSummary, hqc, hn]; ring
+  have hS12 : (addSummary ps.length (x.1 - c.1, x.2 - c.2) D ((0, 0), 0)).1.2 = n * (qc * qc * (x.2 - c.2)) := by
+    simp [addSummary, hqc, hn]; ring
+  rw [hS2, hS11, hS12, sum_snd, sum_fst_fst, sum_fst_snd, List.map_map, List.map_map, List.map_map]
+  refine ⟨mul_nonneg hn0 hqcpos.le, ?_, ?_, ?_⟩
+  · -- sum_Q
+    have hb : ∀ p ∈ ps, |(1 / (1 + sqNorm (x.1 - p.1, x.2 - p.2))) - qc
+        - (2 * (qc * qc) * (x.1 - c.1)) * (p.1 - c.1) - (2 * (qc * qc) * (x.2 - c.2)) * (p.2 - c.2)| ≤
+        37 * (8 * (θ * θ)) * qc := by
+      intro p hp
+      have := sumQ_point (hF p hp)
+      have e : (1 / (1 + sqNorm (x.1 - p.1, x.2 - p.2))) - qc
+          - (2 * (qc * qc) * (x.1 - c.1)) * (p.1 - c.1) - (2 * (qc * qc) * (x.2 - c.2)) * (p.2 - c.2) =
+          1 / (1 + sqNorm (x.1 - p.1, x.2 - p.2)) - qc -
+            2 * (qc * qc) * ((x.1 - c.1) * (p.1 - c.1) + (x.2 - c.2) * (p.2 - c.2)) := by ring
+      rw [e]; exact this
+    have hsum := list_abs_sum_le _ _ ps hb
+    rw [sum_affine (fun p : K × K => 1 / (1 + sqNorm (x.1 - p.1, x.2 - p.2))) (fun p => p.1 - c.1)
+      (fun p => p.2 - c.2) qc _ _ ps, z1, z2] at hsum
+    have hfun : ((fun a : Acc K => a.2) ∘ term x) = fun p : K × K => 1 / (1 + sqNorm (x.1 - p.1, x.2 - p.2)) := rfl
+    rw [hfun, abs_sub_comm]
+    have : (ps.map fun p : K × K => 1 / (1 + sqNorm (x.1 - p.1, x.2 - p.2))).sum - n * qc =
+        (ps.map fun p : K × K => 1 / (1 + sqNorm (x.1 - p.1, x.2 - p.2))).sum - n * qc -
+          2 * (qc * qc) * (x.1 - c.1) * 0 - 2 * (qc * qc) * (x.2 - c.2) * 0 := by ring
+    rw [this]
+    calc _ ≤ n * (37 * (8 * (θ * θ)) * qc) := hsum
+      _ = 37 * (8 * (θ * θ)) * (n * qc) := by ring
+  · -- neg_f[0]
+    have hb : ∀ p ∈ ps, |(1 / (1 + sqNorm (x.1 - p.1, x.2 - p.2))) * (1 / (1 + sqNorm (x.1 - p.1, x.2 - p.2))) *
+          (x.1 - p.1) - qc * qc * (x.1 - c.1)
+        - (4 * (qc * qc * qc) * (x.1 - c.1) * (x.1 - c.1) - qc * qc) * (p.1 - c.1)
+        - (4 * (qc * qc * qc) * (x.1 - c.1) * (x.2 - c.2)) * (p.2 - c.2)| ≤ 262 * (8 * (θ * θ)) * qc := by
+      intro p hp
+      have := force_point (uk := x.1 - c.1) (ek := p.1 - c.1) (hF p hp)
+        (by have := mul_self_nonneg (p.2 - c.2); linarith)
+        (by unfold sqNorm
+            have := mul_self_nonneg (x.2 - p.2)
+            have e : x.1 - c.1 - (p.1 - c.1) = x.1 - p.1 := by ring
+            rw [e]; simp only; linarith)
+      have e : (1 / (1 + sqNorm (x.1 - p.1, x.2 - p.2))) * (1 / (1 + sqNorm (x.1 - p.1, x.2 - p.2))) *
+          (x.1 - p.1) - qc * qc * (x.1 - c.1)
+          - (4 * (qc * qc * qc) * (x.1 - c.1) * (x.1 - c.1) - qc * qc) * (p.1 - c.1)
+          - (4 * (qc * qc * qc) * (x.1 - c.1) * (x.2 - c.2)) * (p.2 - c.2) =
+          1 / (1 + sqNorm (x.1 - p.1, x.2 - p.2)) * (1 / (1 + sqNorm (x.1 - p.1, x.2 - p.2))) *
+            (x.1 - c.1 - (p.1 - c.1)) - qc * qc * (x.1 - c.1) -
+            4 * (qc * qc * qc) * ((x.1 - c.1) * (p.1 - c.1) + (x.2 - c.2) * (p.2 - c.2)) * (x.1 - c.1) +
+            qc * qc * (p.1 - c.1) := by ring
+      rw [e]; exact this
+    have hsum := list_abs_sum_le _ _ ps hb
+    rw [sum_affine (fun p : K × K => (1 / (1 + sqNorm (x.1 - p.1, x.2 - p.2))) *
+        (1 / (1 + sqNorm (x.1 - p.1, x.2 - p.2))) * (x.1 - p.1)) (fun p => p.1 - c.1)
+      (fun p => p.2 - c.2) (qc * qc * (x.1 - c.1)) _ _ ps, z1, z2] at hsum
+    have hfun : ((fun a : Acc K => a.1.1) ∘ term x) = fun p : K × K => (1 / (1 + sqNorm (x.1 - p.1, x.2 - p.2))) *
+        (1 / (1 + sqNorm (x.1 - p.1, x.2 - p.2))) * (x.1 - p.1) := rfl
+    rw [hfun, abs_sub_comm]
+    simp only [mul_zero, sub_zero] at hsum
+    calc _ ≤ n * (262 * (8 * (θ * θ)) * qc) := hsum
+      _ = 262 * (8 * (θ * θ)) * (n * qc) := by ring
+  · -- neg_f[1]
+    have hb : ∀ p ∈ ps, |(1 / (1 + sqNorm (x.1 - p.1, x.2 - p.2))) * (1 / (1 + sqNorm (x.1 - p.1, x.2 - p.2))) *
+          (x.2 - p.2) - qc * qc * (x.2 - c.2)
+        - (4 * (qc * qc * qc) * (x.2 - c.2) * (x.1 - c.1)) * (p.1 - c.1)
+        - (4 * (qc * qc * qc) * (x.2 - c.2) * (x.2 - c.2) - qc * qc) * (p.2 - c.2)| ≤ 262 * (8 * (θ * θ)) * qc := by
+      intro p hp
+      have := force_point (uk := x.2 - c.2) (ek := p.2 - c.2) (hF p hp)
+        (by have := mul_self_nonneg (p.1 - c.1); linarith)
+        (by unfold sqNorm
+            have := mul_self_nonneg (x.1 - p.1)
+            have e : x.2 - c.2 - (p.2 - c.2) = x.2 - p.2 := by ring
+            rw [e]; simp only; linarith)
+      have e : (1 / (1 + sqNorm (x.1 - p.1, x.2 - p.2))) * (1 / (1 + sqNorm (x.1 - p.1, x.2 - p.2))) *
+          (x.2 - p.2) - qc * qc * (x.2 - c.2)
+          - (4 * (qc * qc * qc) * (x.2 - c.2) * (x.1 - c.1)) * (p.1 - c.1)
+          - (4 * (qc * qc * qc) * (x.2 - c.2) * (x.2 - c.2) - qc * qc) * (p.2 - c.2) =
+          1 / (1 + sqNorm (x.1 - p.1, x.2 - p.2)) * (1 / (1 + sqNorm (x.1 - p.1, x.2 - p.2))) *
+            (x.2 - c.2 - (p.2 - c.2)) - qc * qc * (x.2 - c.2) -
+            4 * (qc * qc * qc) * ((x.1 - c.1) * (p.1 - c.1) + (x.2 - c.2) * (p.2 - c.2)) * (x.2 - c.2) +
+            qc * qc * (p.2 - c.2) := by ring
+      rw [e]; exact this
+    have hsum := list_abs_sum_le _ _ ps hb
+    rw [sum_affine (fun p : K × K => (1 / (1 + sqNorm (x.1 - p.1, x.2 - p.2))) *
+        (1 / (1 + sqNorm (x.1 - p.1, x.2 - p.2))) * (x.2 - p.2)) (fun p => p.1 - c.1)
+      (fun p => p.2 - c.2) (qc * qc * (x.2 - c.2)) _ _ ps, z1, z2] at hsum
+    have hfun : ((fun a : Acc K => a.1.2) ∘ term x) = fun p : K × K => (1 / (1 + sqNorm (x.1 - p.1, x.2 - p.2))) *
+        (1 / (1 + sqNorm (x.1 - p.1, x.2 - p.2))) * (x.2 - p.2) := rfl
+    rw [hfun, abs_sub_comm]
+    simp only [mul_zero, sub_zero] at hsum
+    calc _ ≤ n * (262 * (8 * (θ * θ)) * qc) := hsum
+      _ = 262 * (8 * (θ * θ)) * (n * qc) := by ring
+
+/-- for `8θ² ≤ 1/8` a summarised cell does not contain the query point -/
+theorem summary_outside (θ : K) (hρ : 8 * (θ * θ) ≤ 1 / 8) (b : Cell K) (ps : List (K × K)) (hne : ps ≠ [])
+    (c : K × K) (hm : MassOK ps.length c ps) (hall : ∀ p ∈ ps, b.containsPoint p = true) (x : K × K)
+    (hs : useSummary θ b (sqNorm (x.1 - c.1, x.2 - c.2)) = true) : x ∉ ps := by
+  intro hx
+  have hcb := com_in_box b ps hne c hm hall
+  have hxb := (contains_iff b x).1 (hall x hx)
+  have hd := box_diam b x c hxb hcb
+  obtain ⟨-, -, hcrit⟩ := useSummary_true θ _ b hs
+  have hD := sqNorm_nonneg (x.1 - c.1, x.2 - c.2)
+  have e : sqNorm (x.1 - c.1, x.2 - c.2) = (x.1 - c.1) * (x.1 - c.1) + (x.2 - c.2) * (x.2 - c.2) := by
+    unfold sqNorm; ring
+  have h1 : 8 * (θ * θ) * sqNorm (x.1 - c.1, x.2 - c.2) ≤ 1 / 8 * sqNorm (x.1 - c.1, x.2 - c.2) :=
+    mul_le_mul_of_nonneg_right hρ hD
+  rw [← e] at hd
+  linarith
+
+/-! ### the whole traversal -/
+
+/-- the error statement: `bh` the value at `θ`, `ex` the exact one -/
+def ErrOK (ρ : K) (bh ex : Acc K) : Prop :=
+  0 ≤ bh.2 ∧ |bh.2 - ex.2| ≤ 37 * ρ * bh.2 ∧ |bh.1.1 - ex.1.1| ≤ 262 * ρ * bh.2 ∧
+    |bh.1.2 - ex.1.2| ≤ 262 * ρ * bh.2
+
+theorem ErrOK.refl {ρ : K} (hρ : 0 ≤ ρ) {a : Acc K} (h : 0 ≤ a.2) : ErrOK ρ a a := by
+  refine ⟨h, ?_, ?_, ?_⟩ <;> simp only [sub_self, abs_zero] <;> positivity
+
+theorem ErrOK.add {ρ : K} {a b a' b' : Acc K} (h1 : ErrOK ρ a b) (h2 : ErrOK ρ a' b') :
+    ErrOK ρ (a + a') (b + b') := by
+  obtain ⟨p1, q1, r1, s1⟩ := h1
+  obtain ⟨p2, q2, r2, s2⟩ := h2
+  simp only [ErrOK, Prod.snd_add, Prod.fst_add]
+  refine ⟨by linarith, ?_, ?_, ?_⟩
+  · have := abs_add_le (a.2 - b.2) (a'.2 - b'.2)
+    have e : a.2 + a'.2 - (b.2 + b'.2) = (a.2 - b.2) + (a'.2 - b'.2) := by ring
+    rw [e]; linarith
+  · have := abs_add_le (a.1.1 - b.1.1) (a'.1.1 - b'.1.1)
+    have e : a.1.1 + a'.1.1 - (b.1.1 + b'.1.1) = (a.1.1 - b.1.1) + (a'.1.1 - b'.1.1) := by ring
+    rw [e]; linarith
+  · have := abs_add_le (a.1.2 - b.1.2) (a'.1.2 - b'.1.2)
+    have e : a.1.2 + a'.1.2 - (b.1.2 + b'.1.2) = (a.1.2 - b.1.2) + (a'.1.2 - b'.1.2) := by ring
+    rw [e]; linarith
+
+theorem addSummary_snd_nonneg (cum : Nat) (buff : K × K) (v : K × K) :
+    0 ≤ (addSummary cum buff (sqNorm v) ((0, 0), 0)).2 := by
+  have := sqNorm_nonneg v
+  simp only [addSummary, zero_add]
+  have h1 : (0 : K) ≤ (cum : K) := Nat.cast_nonneg _
+  have h2 : (0 : K) ≤ 1 / (1 + sqNorm v) := by positivity
+  exact mul_nonneg h1 h2
+
+/-- **error of the traversal of a subtree** (no coincident points) -/
+theorem forces_error (data : Nat → K × K) (pi : Nat) (θ : K) (hρ : 8 * (θ * θ) ≤ 1 / 8) :
+    ∀ (t : Tree K) (ps : List (K × K)), WF data t ps → Distinct ps →
+      ErrOK (8 * (θ * θ)) (fval data θ pi t) (fval data 0 pi t) := by
+  have hρ0 : 0 ≤ 8 * (θ * θ) := mul_nonneg (by norm_num) (mul_self_nonneg θ)
+  intro t
+  induction t with
+  | leaf b cum com res =>
+    intro ps _ _
+    have e : fval data θ pi (.leaf b cum com res) = fval data 0 pi (.leaf b cum com res) := by
+      simp only [fval, forces]
+    rw [e]
+    apply ErrOK.refl hρ0
+    simp only [fval, forces]
+    split_ifs
+    · simp
+    · exact addSummary_snd_nonneg _ _ _
+  | node b cum com nw ne sw se ih1 ih2 ih3 ih4 =>
+    intro ps hwf hd
+    have hwf' := hwf
+    simp only [WF] at hwf
+    obtain ⟨hcum, hmass, hall, ⟨p, hp, -⟩, -, -, -, -, w1, w2, w3, w4⟩ := hwf
+    have hne : ps ≠ [] := List.ne_nil_of_mem hp
+    subst hcum
+    have hc : ps.length ≠ 0 := fun h => by rw [List.length_eq_zero_iff] at h; exact hne h
+    by_cases hs : useSummary θ b (sqNorm ((data pi).1 - com.1, (data pi).2 - com.2)) = true
+    · have hx := summary_outside θ hρ b ps hne com hmass hall (data pi) hs
+      have e1 : fval data θ pi (.node b ps.length com nw ne sw se) =
+          addSummary ps.length ((data pi).1 - com.1, (data pi).2 - com.2)
+            (sqNorm ((data pi).1 - com.1, (data pi).2 - com.2)) ((0, 0), 0) := by
+        simp only [fval, forces, hc, if_false, hs, if_true]
+      rw [e1, fval_zero data pi _ ps hwf' hd hx]
+      exact summary_error θ hρ b ps hne com hmass hall (data pi) hs
+    · have hs' : useSummary θ b (sqNorm ((data pi).1 - com.1, (data pi).2 - com.2)) = false := by
+        simpa using hs
+      rw [fval_node data θ pi b ps.length com nw ne sw se hc hs',
+        fval_node data 0 pi b ps.length com nw ne sw se hc (useSummary_zero _ _)]
+      exact (((ih1 _ w1 (hd.filter _)).add (ih2 _ w2 (hd.filter _))).add (ih3 _ w3 (hd.filter _))).add
+        (ih4 _ w4 (hd.filter _))
+
+/-- **`force_error_bound`**: `computeNonEdgeForces(i, θ)` on the built tree against the exact all-pairs sums -/
+theorem forces_error_exact (data : Nat → K × K) (fuel : Nat) (root : Cell K) (is : List Nat) (t : Tree K)
+    (h : buildIn data fuel root is = some t) (hd : DistinctIdx data (accepted data root is)) (pi : Nat) (θ : K)
+    (hρ : 8 * (θ * θ) ≤ 1 / 8) :
+    ErrOK (8 * (θ * θ)) (forces data θ pi t ((0, 0), 0)) (exactForces data (accepted data root is) pi) := by
+  obtain ⟨hwf, -⟩ := buildIn_WF data fuel root is t h
+  have hdp : Distinct (acceptedPts data root is) := by rw [acceptedPts_eq]; exact hd.pts
+  have := forces_error data pi θ hρ t _ hwf hdp
+  rw [← forces_zero_exact data fuel root is t h hd pi]
+  exact this
+
 end TapkeeVerif.QuadTree
